@@ -36,6 +36,23 @@ example : c01Region { c01Pkg false ['C'] [tspec ['C', 'A'] ['C'] 1] with locals 
     c01Model { c01Pkg false ['C'] [tspec ['C', 'A'] ['C'] 1] with locals := [[tspec ['t', 'm', 'p'] ['C'] 7]] } = (0, true, true) := by
   decide
 
+/-- `type Color int; const ColorRed Color = 1; type color int; const colorDark color = 0`, both generated in one run
+    (`-type=Color,color`, `-file=`, `-type=*`): exit 0, but both outputs declare `_color_max`, `_color_values`, … -/
+theorem C01_F_enumTableClash_witness :
+    let p : PkgCase := { bit := false, sql := false, gorm := false, wellFormed := true,
+                         types := [(['C', 'o', 'l', 'o', 'r'], ⟨true, 64⟩), (['c', 'o', 'l', 'o', 'r'], ⟨true, 64⟩)],
+                         blocks := [[tspec ['C', 'o', 'l', 'o', 'r', 'R', 'e', 'd'] ['C', 'o', 'l', 'o', 'r'] 1],
+                                    [tspec ['c', 'o', 'l', 'o', 'r', 'D', 'a', 'r', 'k'] ['c', 'o', 'l', 'o', 'r'] 0]] }
+    c01Region p = "F_enumTableClash" ∧ c01Model p = (0, true, false) ∧
+    camelGO ['H', 'T', 'T', 'P', 'S', 't', 'a', 't', 'e'] = camelGO ['H', 't', 't', 'p', 'S', 't', 'a', 't', 'e'] ∧
+    camelGO ['M', 'y', '_', 'T', 'y', 'p', 'e'] = camelGO ['M', 'y', 'T', 'y', 'p', 'e'] := by decide
+
+/-- only ONE of the two generated: no collision -/
+example : c01Region { bit := false, sql := false, gorm := false, wellFormed := true,
+                      types := [(['C', 'o', 'l', 'o', 'r'], ⟨true, 64⟩)],
+                      blocks := [[tspec ['C', 'o', 'l', 'o', 'r', 'R', 'e', 'd'] ['C', 'o', 'l', 'o', 'r'] 1],
+                                 [tspec ['c', 'o', 'l', 'o', 'r', 'D', 'a', 'r', 'k'] ['c', 'o', 'l', 'o', 'r'] 0]] } = "WF" := by decide
+
 /-- `type Format int; const ( json Format = iota; xml )` with -json: the constant collides with the import -/
 theorem C01_F_enumIdentClash_witness :
     c01Region { c01Pkg false ['F'] [tspec ['j', 's', 'o', 'n'] ['F'] 0, tspec ['x', 'm', 'l'] ['F'] 1] with
